@@ -135,7 +135,12 @@ def run(tier, out, model_ok, proof):
         if rng.random() < 0.25:
             # a rule fault so that rule-rejected documents are covered too
             roots.append(N(rng.choice(['TYPE @t\n{"dup": 1}', "TAG @tg", "GET /m0\n", "ENUM @e\n[3]", "SERVER @s0"])))
-        projects.append(split_project(rng, roots))
+        if rng.random() < 0.4:
+            # any contiguous run of directives (not only whole sub-trees): the piece may end with a
+            # parent whose children stay in the includer, or climb out of the context it started in
+            projects.append(treecorr.split_includes(rng, treecorr.flatten_nodes(roots), max_files=5))
+        else:
+            projects.append(split_project(rng, roots))
     cases, metas = [], []
     for i, files in enumerate(projects):
         inl = meta.inline_includes(files)
@@ -192,7 +197,7 @@ def run(tier, out, model_ok, proof):
     out.coverage.update({
         "evaluations": len(cases),
         "distinct_nontrivial": sum(1 for _, f, _ in metas if len(f) > 1),
-        "rule": "structured documents (some with one injected rule fault) cut at directive boundaries into include trees (nesting <= 3, pieces in sub-directories, equal sibling runs included from the same file, files without a final newline, cuts after directives that still wait for children) + hand-picked projects + projects in which one written include name is used from several directories and names different files; each project is built and compared with its textual inlining (lib/meta.py): catalog JSON, or message and corresponding file:line; forests are compared with the extracted Coq model; non-trivial = at least one INCLUDE",
+        "rule": "structured documents (some with one injected rule fault) cut at directive boundaries into include trees (whole sibling runs, or any contiguous run of directive lines; nesting <= 3, pieces in sub-directories, equal sibling runs included from the same file, files without a final newline, cuts after directives that still wait for children) + hand-picked projects + projects in which one written include name is used from several directories and names different files; each project is built and compared with its textual inlining (lib/meta.py): catalog JSON, or message and corresponding file:line; forests are compared with the extracted Coq model; non-trivial = at least one INCLUDE",
         "samples": [{n: d.decode("latin1")[:200] for n, d in projects[0].items()}],
         "traces_validated_against_impl": (len([c for c in cases if c["id"].startswith("p")]) - len(mism)) if model_ok else 0,
         "accepted_pairs": acc, "rejected_pairs": rej,
